@@ -17,7 +17,7 @@ NOT_DECIDED = ("energy/momentum conservation of the sampled kinematics, unit vec
 MODELS = ["KleinNishina", "LivermorePE", "BetheHeitler", "EPlusGG", "MollerBhabha", "SeltzerBerger",
           "RelativisticBrem", "CombinedBrem", "MuBremsstrahlung", "BetheBloch", "Rayleigh",
           "CoulombScattering", "MuBetheBloch", "Bragg", "ICRU73QO"]
-TECHNIQUE = ('null-pointer discipline (test, failure edge must-return, use dominated by non-null edge) on the CFG of every interactor; booking-dominates-reset rule; reachability between bookings of the deposition (single booking per path); argument audit of every momentum-conservation helper call site; cut/particle pairing by guard provenance')
+TECHNIQUE = ('null-pointer discipline (test, failure edge must-return, use dominated by non-null edge) on the CFG of every interactor; booking-dominates-reset rule; reachability between bookings of the deposition (single booking per path); argument audit of every momentum-conservation helper call site; cut/particle pairing by guard provenance; index-domain (reaching definitions) rule on the relaxation cut tables; return-shape rule on the exiting-direction sampler')
 
 UNITS = ["src/celeritas/em/model/%sModel.cc" % m for m in MODELS] + [
     "src/celeritas/neutron/model/ChipsNeutronElasticModel.cc",
